@@ -174,7 +174,7 @@ def h_phase(c, version, aead, srv):
                 c.ensure("frame.body_modifies_only_sequence_number_and_export_list[%s]" % ("session" if tag_ == "s" else "decryptor"), same)
             c.ensure("one_aead_object_per_record_with_the_directions_key", len(made) == 1 and made[0][0] == aead and c.prove(eq(made[0][1], key)))
             c.cover("record_exported")
-    c.loop(SE + ".get_tls_records", "for record in self.%s" % own_recs, invariant=inv, havoc={"e": lambda cur_: None}, ghost_step=ghost)
+    c.loop(SE + ".get_tls_records", "for record in self.%s" % own_recs, invariant=inv, havoc={"e": lambda cur_: None}, ghost_step=ghost, callee_frame="harness")
     out = c.method(s, "get_tls_records")
     c.ensure("no_raise", out.exc is None, kind="raises")
     if out.exc is not None:
@@ -367,7 +367,7 @@ def h_phase_legacy(c, version, kind, srv):
                 c.ensure("frame.body_modifies_only_the_declared_cipher_state_and_the_export_list[%s]" % ("session" if tag_ == "s" else "decryptor"), same)
             c.ensure("one_primitive_call_per_record", len(used) == 1)
             c.cover("record_exported")
-    c.loop(SE + ".get_tls_records", "for record in self.%s" % own_recs, invariant=inv, havoc={"e": lambda cur_: None}, ghost_step=ghost)
+    c.loop(SE + ".get_tls_records", "for record in self.%s" % own_recs, invariant=inv, havoc={"e": lambda cur_: None}, ghost_step=ghost, callee_frame="harness")
     out = c.method(s, "get_tls_records")
     c.ensure("no_raise", out.exc is None, kind="raises")
     if out.exc is not None:
